@@ -248,21 +248,22 @@ def check(ctx):
 
     # ---- R5 positions / field order ---------------------------------------------------------------
     af = ctx.fn(MR, "ModelResultsHandler.add_agg_predictions")
-    loops = [n for n in util.own_nodes(af, ast.For)]
-    ok = False
-    detail = "interval assignment loop not recognised"
-    if loops:
-        lp = loops[0]
-        it_ok = ast.unparse(lp.iter) == "self.prediction_interval_alphas"
-        asg = {}
-        for n in ast.walk(lp):
-            if isinstance(n, ast.Assign) and isinstance(n.targets[0], ast.Subscript) and isinstance(n.targets[0].slice, ast.JoinedStr):
-                name = "".join(v.value for v in n.targets[0].slice.values if isinstance(v, ast.Constant))
-                asg[name] = ast.unparse(n.value)
-        want = {"lower__": f"agg_interval_predictions[{lp.target.id}][0]", "upper__": f"agg_interval_predictions[{lp.target.id}][1]"} if isinstance(lp.target, ast.Name) else {}
-        ok = it_ok and asg == want
-        detail = ("for every interval level of the handler: lower_a_e <- element 0, upper_a_e <- element 1" if ok
-                  else f"assignments {asg} over {ast.unparse(lp.iter)}")
+    afs = ctx.builder().summarize(af)
+    SELF_ = ("param", "self")
+    ELEM_OK = lambda e_: e_[0] == "elem" and e_[1] == ("attr", SELF_, "prediction_interval_alphas")  # noqa: E731
+    got = {}
+    for t_ in [x for _, _, x, _ in afs.assigns] + [w[2] for w in afs.attr_writes]:
+        for x in ir.walk(t_):
+            if x[0] == "setitem" and x[2][0] == "fstr" and x[2][1] and x[2][1][0][0] == "const" and isinstance(x[2][1][0][1], str):
+                side = x[2][1][0][1].split("_")[0]
+                key_level = next((p_ for p_ in x[2][1] if p_[0] == "elem"), None)
+                v = x[3]
+                src_ok = (v[0] == "sub" and v[2][0] == "const" and v[1][0] == "sub" and v[1][1] == ("param", "agg_interval_predictions")
+                          and v[1][2] == key_level and key_level is not None and ELEM_OK(key_level) and ("param", "estimand") in x[2][1])
+                got.setdefault(side, set()).add(v[2][1] if src_ok else ir.show(v, maxdepth=4))
+    ok = got.get("lower") == {0} and got.get("upper") == {1}
+    detail = ("for every interval level of the handler: lower_a_e <- element 0, upper_a_e <- element 1 of that level's intervals" if ok
+              else f"interval columns are filled from {({k_: sorted(map(str, v_)) for k_, v_ in got.items()})} (expected lower <- [level][0], upper <- [level][1])")
     ctx.ob("C02.R5.positions", f"{af.qualname}|element 0 -> lower, 1 -> upper, all levels", ok, af.where(), detail)
     for modn in (BASE, "elexmodel.models.ConformalElectionModel"):
         m = repo.mod(modn)
